@@ -1,7 +1,7 @@
 (* Extraction of the executable model and specification to OCaml.
    Only the directives of ExtrOcamlBasic are used (bool, option, unit, list, prod, sumbool, …);
    Z, N, positive and nat stay extracted inductives: no Extract Constant, no ExtrOcamlZInt/NatInt. *)
-From OxiVerif Require Import Base.Common Spec.Filter Spec.Adam7 Spec.Sem Spec.Decode Model.Types Model.Headers Model.ScanLines Model.Filters Model.Interlace Model.BitDepth Model.Color Model.Palette Model.Options Model.Evaluate Model.Reductions Model.PngData Model.Optimize Model.Cli Model.Io Base.Crc32.
+From OxiVerif Require Import Base.Common Spec.Filter Spec.Adam7 Spec.Sem Spec.Decode Model.Types Model.Headers Model.ScanLines Model.Filters Model.Interlace Model.BitDepth Model.Color Model.Palette Model.Options Model.Evaluate Model.Reductions Model.PngData Model.Optimize Model.Cli Model.Io Model.Sched Base.Crc32.
 Require Import ExtrOcamlBasic.
 Extraction Language OCaml.
 Set Extraction KeepSingleton.
@@ -13,7 +13,7 @@ Extraction "model.ml"
   reduced_palette sorted_palette sorted_palette_mzeng sorted_palette_battiato scale_16_to_8
   crc32 default_options from_preset strip_keep is_c2pa parse_next_chunk parse_ihdr_chunk srgb_rendering_intent
   preprocess_chunks postprocess_chunks from_slice output perform_reductions optimize_raw optimize_png optimize_from_memory
-  cli_options exit_code collect route is_png_name optimize_io
+  cli_options exit_code collect route is_png_name optimize_io sstep srun sinit some_enabled mu drive sstep_nospin
   evaluator_trials evaluator_best perform_trials
   is_fully_optimized raw_image_new raw_add_chunk raw_add_icc raw_create best_of sequential run init_state min_by_key completeb
   raw_data_size interlace_image deinterlace_image change_interlacing
